@@ -21,6 +21,7 @@ import os
 import pathlib
 import re
 import sys
+import tempfile
 
 from ctmverif import core, pipeline, translate_res
 
@@ -843,8 +844,17 @@ def check_run(ctx, rng, failure, awkward=True, cloud_safe=None):
         roots = sensitive_roots(wd)
         if cloud_safe is not None:
             cfg['cloud_safe'] = cloud_safe
-        with pipeline.quiet(), injected_worker_failure(rng, failure, cfg):
-            run = pipeline.run_mapping(cfg)
+        # with tmp_dir=None run_mapping leaves query_marker_*.h5 in the system
+        # temp directory (C19's business): give it a private one
+        saved_tmp = tempfile.tempdir
+        (wd / 'systmp').mkdir(exist_ok=True)
+        tempfile.tempdir = str(wd / 'systmp')
+        try:
+            with pipeline.quiet(), \
+                    injected_worker_failure(rng, failure, cfg):
+                run = pipeline.run_mapping(cfg)
+        finally:
+            tempfile.tempdir = saved_tmp
             # the exception keeps the FileTracker alive through its
             # traceback; drop it here so that __del__ prints inside quiet()
             if run['error'] is not None:
